@@ -743,12 +743,27 @@ pub fn reentrant_programs() -> Vec<String> {
             ));
         }
     }
+    // @display of an element running under the display of its container
+    for e in list_effects {
+        for c in ["'{l}'", "'{l:?}'", "'{(l, 1)}'", "'{[l]}'", "l.to_string()"] {
+            out.push(format!(
+                "l = []\nmk = |n|\n  n: n\n  @display: ||\n    {e}\n    'o{{self.n}}'\nl.push mk 2\nl.push mk 1\nl.push mk 3\ntry\n  r = {c}\n  print r\ncatch err\n  print 'error'\nprint size l\n"
+            ));
+        }
+    }
     let map_effects = ["size m", "m.insert 'z', 1", "m.remove 'a'", "m.clear()", "m.sort()", "m.extend m", "m.keys().to_list()", "m.a = 5", "'{m}'", "koto.copy m", "m == m", "m.get 'a'", "m[0] = ('q', 1)"];
     let map_calls = ["m.sort kb", "m.update 'a', cb", "m.update 'n', 0, cb", "m.each(pairb).to_list()", "m.keep(pairp).to_map()", "m.fold 0, fb", "m.find pairp", "m.any pairp", "m.keys().each(cb).to_list()", "m.values().each(cb).to_list()", "m.consume pairb", "m.min pairb"];
     for e in map_effects {
         for c in map_calls {
             out.push(format!(
                 "m = {{a: 1, b: 2}}\ncb = |x|\n  {e}\n  x\nkb = |k, v|\n  {e}\n  v\npairb = |p|\n  {e}\n  p\npairp = |p|\n  {e}\n  true\nfb = |a, x|\n  {e}\n  a\ntry\n  r = {c}\n  print r\ncatch err\n  print 'error'\nprint m\n"
+            ));
+        }
+    }
+    for e in map_effects {
+        for c in ["'{m}'", "'{m:?}'", "'{(m, 1)}'", "'{[m]}'", "m.to_string()"] {
+            out.push(format!(
+                "m = {{a: 1, b: 2}}\nmk = |n|\n  n: n\n  @display: ||\n    {e}\n    'o{{self.n}}'\nm.c = mk 1\nm.d = mk 2\ntry\n  r = {c}\n  print r\ncatch err\n  print 'error'\nprint size m\n"
             ));
         }
     }
@@ -924,7 +939,7 @@ pub fn run(args: &Args) -> i32 {
         if r.contains("Panic") || r.contains("panic") {
             let call = src.lines().find(|l| l.starts_with("  r = ")).unwrap_or("").trim().to_string();
             let lines: Vec<&str> = src.lines().collect();
-            let eff = lines.iter().position(|l| l.starts_with("cb = |x|") || l.trim_start().starts_with("@<: |o|")).and_then(|i| lines.get(i + 1)).map(|l| l.trim().to_string()).unwrap_or_default();
+            let eff = lines.iter().position(|l| l.starts_with("cb = |x|") || l.trim_start().starts_with("@<: |o|") || l.trim() == "@display: ||").and_then(|i| lines.get(i + 1)).map(|l| l.trim().to_string()).unwrap_or_default();
             report.fail(None, format!("[reentrancy] the rc build panics: `{call}` while its callback / comparison does `{eff}`"), format!("rc observes {:?}\n--- program ---\n{src}", readable(r)));
         }
         if *r != a_text {
